@@ -178,6 +178,63 @@ def run_case(cp):
     return {"cnt": cnt, "viol": viol}
 
 
+def shared_spec_case(job):
+    """one bin-specification OBJECT used by two coverpoints and by two covergroup instances (a module-level
+    bins table): building the first model must not consume the specification"""
+    from vsc.impl.coverage_registry import CoverageRegistry
+    w, entries = job
+    cnt = {"executions": 0, "transitions": 0, "states": 0, "nontrivial": 1}
+    viol = []
+    CoverageRegistry.clear()
+    table = {}
+    for b in entries:
+        if b[1] == 'bin':
+            table[b[0]] = vsc.bin(*cov._args(b[2:]))
+        else:
+            table[b[0]] = vsc.bin_array([] if b[2] is None else [b[2]], *cov._args(b[3:]))
+
+    @vsc.covergroup
+    class SCG(object):
+        def __init__(self):
+            self.with_sample(dict(a=vsc.bit_t(w), b=vsc.bit_t(w)))
+            self.cp_a = vsc.coverpoint(self.a, bins=table)
+            self.cp_b = vsc.coverpoint(self.b, bins=table)
+    cp = {'type': ('bit', w), 'bins': entries}
+    bins, _, _ = cov.ref_bins(cp)
+    exp = [sum(1 for v in range(1 << w) if v in b) for b in bins]
+    try:
+        insts = [SCG(), SCG()]
+    except Exception as e:
+        viol.append({"subcheck": "shared_spec", "case": {"w": w, "entries": entries}, "observed": [type(e).__name__, str(e)[:100]],
+                     "expected": "builds", "what": "building two coverpoints / two instances from one specification object raised %s %s" % (
+                         type(e).__name__, str(e)[:100])})
+        return {"cnt": cnt, "viol": viol}
+    for k, cg in enumerate(insts):
+        for v in range(1 << w):
+            cg.sample(v, v)
+            cnt["executions"] += 1
+        for j, m in enumerate(cg.get_model().coverpoint_l):
+            got = cov.cp_hits(m)[0]
+            if got != exp:
+                viol.append({"subcheck": "shared_spec", "case": {"w": w, "entries": entries}, "observed": got, "expected": exp,
+                             "what": "bins %r shared by two coverpoints and two instances: after sampling every value once, coverpoint %d of "
+                                     "instance %d holds %r, the statement gives %r" % (entries, j, k, got, exp)})
+    cnt["transitions"] = cnt["executions"]
+    cnt["states"] = 4
+    CoverageRegistry.clear()
+    return {"cnt": cnt, "viol": viol[:3]}
+
+
+def shared_jobs():
+    out = []
+    for w, entries in [(4, [['a', 'arr', 4, [0, 15]]]), (4, [['a', 'arr', 3, [0, 15]]]), (4, [['a', 'arr', 2, [1, 3], [8, 12]]]),
+                       (4, [['a', 'arr', 5, 0, [2, 9], 15]]), (4, [['s', 'bin', 1, [4, 6]], ['a', 'arr', 3, [7, 15]]]),
+                       (4, [['a', 'arr', None, [0, 3], 9]]), (3, [['a', 'arr', 3, [0, 7]], ['b', 'arr', 2, [0, 7]]]),
+                       (5, [['a', 'arr', 6, [0, 31]]]), (4, [['a', 'arr', 7, [0, 15]]]), (4, [['x', 'bin', [0, 15]]])]:
+        out.append((w, entries))
+    return out
+
+
 def classify(v):
     return None
 
@@ -197,6 +254,18 @@ def run(res, only=None):
         for v in r["viol"]:
             v["finding"] = classify(v)
             res.violation(v)
+    sj = shared_jobs()
+    for j, r in common.good(sj, common.pmap(shared_spec_case, sj, chunk=1), res):
+        cnt = r["cnt"]
+        res.add("traces_validated_against_impl", cnt["executions"])
+        res.add("transitions", cnt["transitions"])
+        res.add("states", cnt["states"])
+        res.add("evaluations", cnt["executions"])
+        nontriv += 1
+        res.subcount("coverpoints", "shared_specifications")
+        for v in r["viol"]:
+            v["finding"] = classify(v)
+            res.violation(v)
     res.cov["distinct_nontrivial"] = nontriv
     res.cov["rule"] = ("one case = one coverpoint specification with every value of its type sampled from a fresh covergroup and "
                        "all sample sequences of length <=3 over bin representatives; non-trivial if it has more than one bin")
@@ -207,6 +276,9 @@ def run(res, only=None):
 
 
 def replay(rec):
+    if rec["subcheck"] == "shared_spec":
+        r = shared_spec_case((rec["case"]["w"], rec["case"]["entries"]))
+        return (not r["viol"]), (r["viol"][0]["what"] if r["viol"] else "counters match")
     cp = rec["case"]["cp"]
     cp = dict(cp)
     cp['type'] = tuple(cp['type'])
